@@ -152,7 +152,7 @@ Step(S, e) ==
                     ELSE IfBad(~IsX(uw.v), "C02.deliver") \cup
                          IfBad(IsX(uw.v) \/ uw.v = e.v, "C01.recv")) \cup
               CtxRunClauses(S1, e.t)
-        IN [S |-> IF isExc /\ ~T.catch THEN [S1 EXCEPT !.ts[e.t].thrown = e.u] ELSE S1, bad |-> bads]
+        IN [S |-> IF isExc /\ ~(T.catch /\ ~IsBaseX(e.v)) THEN [S1 EXCEPT !.ts[e.t].thrown = e.u] ELSE S1, bad |-> bads]
 
     [] e.e = "SegEnd" ->
         IF e.t \notin DOMAIN S.ts THEN [S |-> S, bad |-> {"H.unknown_task"}] ELSE
